@@ -199,7 +199,7 @@ func registerIntrinsics(e *Engine) {
 	in["math/rand.Float64"] = func(p *Path, _ *frame, _ *ssa.Function, a []value) (value, bool) {
 		p.stub("math/rand.Float64")
 		f := p.havocF64("rand.Float64")
-		p.assume(p.tc.And(p.tc.Bin(OFLe, ConstF64(0), f), p.tc.Bin(OFLt, f, ConstF64(1))))
+		p.assumeChecked(p.tc.And(p.tc.Bin(OFLe, ConstF64(0), f), p.tc.Bin(OFLt, f, ConstF64(1))))
 		return f, true
 	}
 
@@ -428,12 +428,12 @@ func registerIntrinsics(e *Engine) {
 	in["strconv.eiselLemire64"] = func(p *Path, _ *frame, _ *ssa.Function, a []value) (value, bool) {
 		p.stub("strconv.eiselLemire64(value half of ParseFloat)")
 		f := p.havocF64("ParseFloat.value")
-		p.assume(p.tc.Not(p.tc.Un(OFIsNaN, f)))
+		p.assumeChecked(p.tc.Not(p.tc.Un(OFIsNaN, f)))
 		// sign is determined by the caller's neg flag
 		neg := a[2].(*Term)
 		bits := p.tc.apply(OFPToBits, BV(64), 0, f)
 		sb := p.tc.Eq(p.tc.Extract(bits, 63, 63), Const(BV(1), 1))
-		p.assume(p.tc.Eq(sb, neg))
+		p.assumeChecked(p.tc.Eq(sb, neg))
 		return tuple{f, tTrue}, true
 	}
 
@@ -491,7 +491,7 @@ func registerIntrinsics(e *Engine) {
 		wall := p.ufBV("time.Date.wall", args)
 		ext := p.ufBV("time.Date.ext", args)
 		// no monotonic reading: the top bit of wall is clear, as for every Date result
-		p.assume(p.tc.Eq(p.tc.Extract(wall, 63, 63), Const(BV(1), 0)))
+		p.assumeChecked(p.tc.Eq(p.tc.Extract(wall, 63, 63), Const(BV(1), 0)))
 		return structure{wall, ext, a[7]}, true
 	}
 	// the instant of a Time built by the stub above, as an uninterpreted function of it
@@ -568,7 +568,7 @@ func (p *Path) ufF64(name string, arg *Term) *Term {
 	for _, c := range p.ufCalls[name] {
 		cb := tc.apply(OFPToBits, BV(64), 0, c[0])
 		crb := tc.apply(OFPToBits, BV(64), 0, c[1])
-		p.assume(tc.Or(tc.Not(tc.Eq(ab, cb)), tc.Eq(rb, crb)))
+		p.assumeChecked(tc.Or(tc.Not(tc.Eq(ab, cb)), tc.Eq(rb, crb)))
 	}
 	p.ufCalls[name] = append(p.ufCalls[name], [2]*Term{arg, res})
 	return res
@@ -586,7 +586,7 @@ func (p *Path) ufBV(name string, args []*Term) *Term {
 		for i := range args {
 			same = tc.And(same, tc.Eq(args[i], c.args[i]))
 		}
-		p.assume(tc.Or(tc.Not(same), tc.Eq(res, c.res)))
+		p.assumeChecked(tc.Or(tc.Not(same), tc.Eq(res, c.res)))
 	}
 	p.ufCallsN[name] = append(p.ufCallsN[name], ufCall{args, res})
 	return res
